@@ -216,7 +216,7 @@ def run(ctx):
                        {"driver": "h-runtime c19 measure" if name == "dynamic" else "tools/props/c19.py static extraction",
                         "event": e, "req": table[e["instr"]]["req"], "impl": table[e["instr"]]["impl"]})
     # 2. exhaustive: role-store states x signers x instructions with the measured table plugged in
-    r = vlib.tlc(ctx.spec("MC_Authz.tla"), ctx.spec("MC_Authz.cfg"), workers=8, timeout=900, env={"AUTHZ": authz}, coverage=False)
+    r = vlib.tlc(ctx.spec("MC_Authz.tla"), ctx.spec("MC_Authz.cfg" if ctx.quick else "MC_Authz_thorough.cfg"), workers=8, timeout=900, env={"AUTHZ": authz}, coverage=False)
     vlib.log("  tlc MC_Authz: %d generated, %d distinct, %.1fs%s" % (r.generated, r.distinct, r.wall,
              "" if r.ok else " [%s]" % (r.violated or r.error)))
     if r.error and not r.violated:
@@ -256,5 +256,5 @@ def run(ctx):
     vlib.log("  %d instructions dynamic, %d static; %d (instr, class) executions" % (n_dyn, n_static, len(measured)))
     return ctx.finish("model_checking",
                       "distinct = (instruction, signer class) pairs executed through the real entrypoints plus statically derived "
-                      "(instruction, accepted class) pairs; TLC explores all role sets of size <= 2 x owner x signer x instruction",
+                      "(instruction, accepted class) pairs; TLC explores all role sets of size <= 2 (thorough: 3) x owner x signer x instruction",
                       exhaustive=False)
